@@ -244,6 +244,7 @@ static void fiber_entry() {
   Task *t = R->current;
   errno = 0;
   if (R->shared) R->shared->cur_api[0] = 0;
+  t->started = true;
   t->entry();
   exit_task();
 }
